@@ -23,8 +23,8 @@ from vlib.core import EPS32, EPS64, Facet, Skip, Violation
 
 PROPERTY = "C20"
 MANIFEST = {
-    "text": "Generated-input search (Hypothesis) over a data-driven table of 485 differentiable entry points (465 + 20 kink entries), each evaluated at GENERIC values and "
-            "- for the 370 entries that have one - at its SPECIAL point (the documented initial / degenerate-but-smooth input: "
+    "text": "Generated-input search (Hypothesis) over a data-driven table of 593 differentiable entry points (573 + 20 kink entries), each evaluated at GENERIC values and "
+            "- for the 478 entries that have one - at its SPECIAL point (the documented initial / degenerate-but-smooth input: "
             "freshly constructed zero / identity initialised transformation parameters incl. inverses, composites, linked inverses and "
             "callables predicting exactly the initial values; exactly all-zero flow / velocity / coefficient fields for expv (scale "
             "None, 0.5, 1, 2, -1, inverse=True, steps 0..5), ExpFlow and its inverse copies, FlowFields.exp(scale, steps), "
@@ -80,7 +80,25 @@ MANIFEST = {
             "normalize_flow / denormalize_flow / normalize_grid / denormalize_grid. Every entry is probed by a seed-independent floor (at generic values AND at its special point) plus "
             "generated cases (1 in 4 at the special point); the self-test fails "
             "(exit 2) when a public name of losses.functional, losses, core.functional, modules or spatial has neither an entry nor "
-            "a justified exclusion (EXCLUDED). Exploration, not proof.",
+            "a justified exclusion (EXCLUDED). TRANSFORM HISTORIES (108 entries: 16 transform classes x read path call / tensor() / "
+            "disp() / flow() / points() / .inv.tensor() / inverse(update_buffers=True).disp()): the transformation object is not fresh "
+            "but has a generated history of public calls - a prefix of 0..3 of {call, update, tensor / disp read, data_, "
+            "reset_parameters, condition_, clear_buffers, load_state_dict, optimiser step, train, eval, .inv, grid_ (resampling / "
+            "B-spline subdivision)}, each executed under torch.no_grad() or with autograd enabled, then a LAST operation that defines "
+            "the cached state by contract (constructor; the documented setters data_ with a Parameter or a plain tensor, grid_, "
+            "reset_parameters, condition_; clear_buffers - each under no_grad or grad; update / call with autograd enabled) - and the "
+            "loss is built from the read path WITHOUT an intervening update() / call: the output requires grad, the gradient reaches "
+            "the parameters the history left behind and equals the finite difference, and the value equals the one after an explicit "
+            "update() (later evaluations refresh explicitly; the call path relies on its pre-forward hook alone, also in eval mode). "
+            "OPTION FLOOR: every entry that takes the derivative `mode` option (spatial / flow derivatives, Jacobians, curl, "
+            "divergence, Lie bracket, compose_svfs, the regularisers and their modules, Curl) x every documented mode (default, "
+            "forward, backward, central, forward_central_backward, sobel, prewitt, gaussian, bspline) with sigma None / 0.7 / 1.0 at "
+            "generic float64 values, seed-independent. FLOAT64 IS FLOAT64: under the float64 rule a float32 result is a violation "
+            "unless the entry declares the float32 rule, and a finite-difference direction is dropped as unreliable at a generic "
+            "point only after the STAIRCASE PROBE passed: increments over the micro steps h/512 and h/256 are linear on at least one "
+            "side within 4096 eps64 sum|w*out| + curvature + 5 % (a float64-accurate piecewise smooth function; a float32 "
+            "intermediate - data or coordinates cast down and back, a kernel pulling the convolution to single precision - moves the "
+            "value in jumps of eps32 * |term| on both sides, or not at all). Exploration, not proof.",
     "note": "Trusted: nothing of autograd - the reference is the finite difference of the same forward function, whose accuracy "
             "is established per direction by comparing steps h and h/2 and the extrapolated second difference (kink "
             "detector); unreliable directions are dropped and counted, cases without a reliable direction are skipped and "
@@ -150,6 +168,23 @@ ASSUMPTIONS = [
     "difference is identically zero at one border and x**q has an infinite slope there for every input (autograd returns NaN; "
     "recorded as an observation, not asserted)",
     "Grid.transform_points with its documented default decimals rounds (zero gradient by design): recorded, not asserted",
+    "transform histories: only operations that define the cached state by contract are generated as the LAST operation before a read "
+    "through tensor() / disp() / flow() / points() / .inv / inverse(update_buffers=True) - the constructor, data_(), grid_(), "
+    "condition_(), reset_parameters(), clear_buffers() (each clears the buffers, the next read recomputes them lazily: "
+    "NonRigidTransform.tensor), update() or a call with autograd enabled. After an in-place edit of the parameters (optimiser step, "
+    "load_state_dict) or after an evaluation under torch.no_grad() the documentation requires update() or a call before such a "
+    "read (SpatialTransform.update docstring; C09 / C06 assumptions): these occur in the generated prefix only, and the "
+    "finite-difference side / later iterations call update() explicitly. The gradient is taken w.r.t. the Parameters the history "
+    "left behind (data_ with a plain tensor and grid_ create new Parameter objects; grid_ is @torch.no_grad() by design, nothing "
+    "is asserted about derivatives through a re-gridding). condition_() is called with a tensor (CompositeTransform.condition_ "
+    "asserts an argument); parameters are held as Parameters (callable parameters of linear transformations after condition_: "
+    "known finding K5 of C09, not generated here)",
+    "staircase probe: asserted at generic points only (at special points nominal interpolation knots displaced by the float32 "
+    "round-off of Grid attributes cluster within 1e-9 of the point: one-sided kinks inside the micro steps, measured on "
+    "ImageTransformer at identity parameters) and only if BOTH sides deviate from linearity; entries whose float64 result is "
+    "float32 accurate by documented design declare it: rule='f32' (correlation / overlap losses, point set distances, "
+    "grid_sample_mask, resampling on Grid objects incl. grid_resample, affine_flow / disp() / flow() of linear transformations, "
+    "label_smoothing) or staircase=True (CompositeTransform.disp() / tensor() with a non-rigid member)",
     "cases hitting defects owned by other properties are skipped and counted: tversky_loss TypeError (F11, C16), compose_flows / "
     "logv with N > 1 (F25, C13), elasticity_loss(mode='bspline') shape error (N17-1, C17)",
     "forward limitations that are not gradient matters are generated around (reported, not asserted): PatchwiseImageLoss accepts a "
@@ -375,6 +410,47 @@ def _staircase(probe, F, h, d, c2, tol, floor) -> bool:
     return abs(c4 - c2) > tol + 512 * floor
 
 
+STAIR_DIV = 512  # micro step tau = h / STAIR_DIV (~2e-9 natural units under the float64 rule)
+STAIR_NOISE = 4096.0  # x eps64 * sum|w*out|: ~1e-12 relative; a float32 intermediate moves the value in jumps of ~1e-8 relative
+
+
+def _float32_staircase(entry, F, h, d, fmag, quotients, second):
+    """Float64 rule = the operation preserves float64 (property: 'float64 where the operation preserves it'): its value is then a
+    float64-accurate function of the differentiated input.  Asserted at GENERIC points when a finite-difference direction is
+    unreliable, BEFORE it is dropped: with the micro steps tau = h / 512 and 2 tau the one-sided increments a(t) = F(t) - F(0) of a
+    float64-accurate function that is smooth on (0, 2 tau) satisfy a(2 tau) = 2 a(tau) up to curvature * tau^2 (bounded by the
+    second difference at step h, scaled) and the round-off of the evaluations.  A kink of a piecewise smooth function inside
+    (0, 2 tau) breaks this on ONE side (probability ~1e-8 per kink of a generic input; special points, where nominal knots
+    displaced by round-off cluster around the point, are not probed); a result that passed through a float32 intermediate (data
+    or coordinates cast down and back, a kernel that pulls the computation to single precision) is a staircase at the 1e-7
+    level: on BOTH sides the increments are sums of a few jumps of eps32 * |term|, four to six orders above the float64
+    round-off, and a(2 tau) is not 2 a(tau); or nothing flips at all and the value is bitwise constant at the micro level although
+    it moves consistently at the level of h.  (The autograd gradient of such an operation is close to the true one; it is the
+    FUNCTION that cannot be optimised / checked to float64 accuracy, and the 'unreliable' finite differences are its symptom.)"""
+    tau = h / STAIR_DIV
+    f0 = F(0.0, d)
+    a = {s: F(s * tau, d) - f0 for s in (1, 2, -1, -2)}
+    mag = max(fmag, F.mag)
+    noise_ = STAIR_NOISE * EPS64 * mag + 8 * abs(second) / STAIR_DIV ** 2
+    dev = {sgn: abs(a[2 * sgn] - 2 * a[sgn]) for sgn in (1, -1)}
+    lim = {sgn: noise_ + 0.05 * max(abs(a[sgn]), abs(a[2 * sgn])) for sgn in (1, -1)}
+    if all(dev[s] > lim[s] for s in (1, -1)):
+        raise Violation(f"float32_staircase:{entry}",
+                        f"float64 input and output, but the value is not a float64-accurate function of the input: increments "
+                        f"F(t)-F(0) at t = tau, 2 tau, -tau, -2 tau (tau = {tau:.3g}): {a[1]:.6g}, {a[2]:.6g}, {a[-1]:.6g}, {a[-2]:.6g} "
+                        f"deviate from linearity on both sides by {dev[1]:.3g}, {dev[-1]:.3g} > {lim[1]:.3g}, {lim[-1]:.3g} "
+                        f"({STAIR_NOISE:g} eps64 sum|w*out| + curvature + 5 %; a float32 intermediate moves the value in jumps of "
+                        f"~{EPS32 * mag:.3g} * fraction); difference quotients at h, h/2: {quotients[1]:.6g}, {quotients[2]:.6g}, "
+                        f"autograd {quotients[0]:.6g}")
+    ad, c1, c2 = quotients
+    moving = abs(c1) * h > 64 * noise_ and abs(c2) * h > 64 * noise_ and c1 * c2 > 0 and 0.5 < abs(c1 / c2) < 2.0
+    if moving and all(v == 0.0 for v in a.values()):
+        raise Violation(f"float32_staircase:{entry}",
+                        f"float64 input and output, but the value is bitwise constant for perturbations of +-{tau:.3g} and "
+                        f"+-{2 * tau:.3g} while the difference quotients at h = {h:.3g} and h/2 are {c1:.6g} and {c2:.6g}: "
+                        "piecewise constant function (float32 intermediate)")
+
+
 def check_probe(entry: str, probe: Probe, key: int) -> dict:
     leaves = probe.leaves
     inputs = _Inputs(probe)  # snapshot of the inputs held constant, before the first evaluation
@@ -389,6 +465,12 @@ def check_probe(entry: str, probe: Probe, key: int) -> dict:
         raise Violation(f"no_grad_path:{entry}", "output does not require grad although an input/parameter does")
     if not bool(torch.isfinite(out).all()):
         raise Violation(f"output_nonfinite:{entry}", "forward value is not finite")
+    if out.dtype != torch.float64 and probe.rule != "f32" and all(p.dtype == torch.float64 for p in leaves):
+        # the table declares (rule="f32") where deepali casts to float32; everywhere else float64 inputs give a float64 result -
+        # otherwise the float32 rule with its large step would silently judge an operation that lost its precision
+        raise Violation(f"float64_not_preserved:{entry}",
+                        f"every differentiated input is float64 but the output is {out.dtype} (the operation is not one of those "
+                        "that documentedly compute in float32)")
     f64 = out.dtype == torch.float64 and all(p.dtype == torch.float64 for p in leaves) and probe.rule != "f32"
     eps, rel, h = (EPS64, REL64, H64 * probe.scale) if f64 else (EPS32, REL32, H32 * probe.scale)
     labels.append("rule=f64" if f64 else "rule=f32")
@@ -445,6 +527,11 @@ def check_probe(entry: str, probe: Probe, key: int) -> dict:
         # |c1 - c2| estimates the error of c2 itself when the truncation error is linear in h (second-order terms that are only
         # piecewise smooth, e.g. exp(v) at v = 0): half the tolerance keeps a margin of 2 (smooth terms: O(h^2), margin 6)
         if abs(c1 - c2) > tol / 2 or abs(2 * j2 - j1) > tol + 4 * floor or _staircase(probe, F, h, d, c2, tol, floor):
+            if f64 and not probe.staircase and "point=special" not in probe.labels:
+                # float64 rule: the direction may be unreliable because of a kink or strong curvature, NOT because the float64
+                # result is only float32 accurate (checked before the direction is dropped: see _float32_staircase)
+                _float32_staircase(entry, F, h, d, fmag, (ad, c1, c2), fp - 2 * f0 + fm)
+                labels.append("staircase_probe=passed")
             labels.append(f"fd_unreliable:{entry}")
             continue
         used += 1
@@ -581,6 +668,16 @@ def selftest():
     _expect("grad_nonfinite", lambda: check_probe("t", Probe([z], lambda: torch.where(z > 1, z.sqrt(), z * 0 + 1) * (z + 1), 1.0), 2))
     xs = leaf(9)  # float64 result computed through a float32 intermediate: every direction is dropped, not reported
     _expect("skip", lambda: check_probe("t", Probe([xs], lambda: (xs * 3.0).float().double().sin(), 1.0, staircase=True), 2))
+    # float64 rule: a float64 result computed through an UNDECLARED float32 intermediate is reported (staircase probe), a kink next to
+    # the point (a float64-accurate piecewise smooth function) is not: its directions are dropped as before; a float32 result of
+    # float64 inputs is reported unless the entry declares the float32 rule
+    _expect("float32_staircase", lambda: check_probe("t", Probe([xs], lambda: (xs * 3.0).float().double().sin(), 1.0), 2))
+    _expect("float32_staircase", lambda: check_probe("t", Probe([xs], lambda: xs.sin() + 0.05 * (xs * 3.0).float().double(), 1.0), 2))
+    xk0 = xs.detach().clone()
+    _expect("skip", lambda: check_probe("t", Probe([xs], lambda: (xs - xk0 - 3e-7).abs() + 0.5 * xs.sin(), 1.0), 2))
+    _expect("float64_not_preserved", lambda: check_probe("t", Probe([xs], lambda: xs.float().sin(), 1.0), 2))
+    r = check_probe("declared_f32", Probe([xs], lambda: xs.float().sin(), 1.0, rule="f32"), 2)
+    assert r["nontrivial"] and "rule=f32" in r["labels"], r
     z0 = torch.zeros(3, 4, dtype=torch.float64).requires_grad_(True)  # special points: exactly zero output / zero gradient
     r = check_probe("zero_out", Probe([z0], lambda: z0 * 2.0 + z0 * z0.abs(), 1.0), 2)
     assert r["nontrivial"] and r["ratio"] < 0.5, r
@@ -711,6 +808,12 @@ def monotone_field(N: int, C: int, shape, key: int, lo: float, hi: float) -> tor
 
 def _leaf(t: torch.Tensor) -> torch.Tensor:
     return t.detach().clone().requires_grad_(True)
+
+
+def _rule_affine_flow(linear: bool):
+    """Declared float32 rule of the displacement field of a LINEAR transformation: affine_flow(matrix, grid) applies the matrix to the
+    float32 coordinates of the Grid object and returns float32 displacements also for a float64 matrix."""
+    return "f32" if linear else None
 
 
 @st.composite
@@ -923,7 +1026,8 @@ def build_transform_probe(case) -> Probe:
         return Probe(params, lambda: t(x, grid=True), pscale, stateful=True, labels=labels)
     if method == "disp":
         # identity parameters: the displacement x' - x is exactly zero and computed by cancellation of coordinates of magnitude 1
-        return Probe(params, lambda: t.update().disp(), pscale, stateful=True, labels=labels, abs_mag=_disp_mag(case))
+        return Probe(params, lambda: t.update().disp(), pscale, stateful=True, labels=labels, abs_mag=_disp_mag(case),
+                     rule=_rule_affine_flow(cls in LINEAR))
     if method == "disp_other":  # displacement field sampled on another grid
         kind = case["disp_grid"]
         if kind == "resized":
@@ -1349,7 +1453,7 @@ def build_flow_probe(case) -> Probe:
         m = _leaf(torch.eye(D, D + 1, dtype=torch.float64).unsqueeze(0).repeat(N, 1, 1)
                   + noise((N, D, D + 1), key + 65, -0.3, 0.3) * (0.0 if special else 1.0))  # special point: identity matrix
         grid = Grid(shape=shape, align_corners=ac)
-        return Probe([m], lambda: U.affine_flow(m, grid), 0.3, labels=labels)
+        return Probe([m], lambda: U.affine_flow(m, grid), 0.3, labels=labels, rule=_rule_affine_flow(True))
     if entry in ("normalize_flow", "denormalize_flow"):
         thin = case.get("thin")
         if thin is not None:
@@ -1836,7 +1940,7 @@ def build_similarity_probe(case) -> Probe:
         return Probe([x], lambda: getattr(L, entry)(x, y, **kw), 1.0, labels=labels)
     if entry == "label_smoothing":
         x = _leaf(noise((N, 3) + shape, key + 123, 0.05, 0.95))
-        return Probe([x], lambda: L.label_smoothing(x, alpha=0.1), 1.0, labels=labels)
+        return Probe([x], lambda: L.label_smoothing(x, alpha=0.1), 1.0, labels=labels, rule="f32")  # labels.float(): float32 probabilities
     if entry == "binary_cross_entropy_with_logits":  # re-exported torch function
         x, y = noise(full, key + 124, -2.0, 2.0), noise(full, key + 125, 0.05, 0.95)
         y = x.sigmoid() if same else y
@@ -1938,7 +2042,11 @@ def build_regulariser_probe(case) -> Probe:
         # |du| has kinks at du = 0: separable strictly monotone field, every finite difference >= 0.05 in magnitude
         # (only the un-smoothed difference modes keep that guarantee)
         p, q = (1, 1) if entry == "total_variation_loss" else (case["p"], case["q"])
-        if mode in ("gaussian", "bspline", "sobel", "prewitt") or case["sigma"] is not None:
+        # sum(du**p)**q with even p and q in {1, 2} is a polynomial of the derivatives (no kink): every derivative mode / sigma
+        smooth_pq = entry == "grad_loss" and p in (2, 4) and q in (1, 2)
+        if smooth_pq:
+            labels.append("smooth_pq")
+        elif mode in ("gaussian", "bspline", "sobel", "prewitt") or case["sigma"] is not None:
             kw.pop("sigma", None)
             if mode in ("gaussian", "bspline", "sobel", "prewitt"):
                 kw["mode"] = mode = "central"
@@ -2441,7 +2549,9 @@ def build_core_probe(case) -> Probe:
         outs = [0.7 + 0.4 * i for i in range(D)] if flag else [0.7, 1.3][opt % 2]
         if sp:  # no-op form: the output spacing is the input spacing
             outs = ins
-        return Probe([x], lambda: f(x, ins, outs), 1.0, labels=labels)
+        # the sampling positions are the float32 coordinates of a Grid object and grid_sample() interpolates in their dtype: the
+        # float64 result is float32 accurate (linear in the data: float32 rule)
+        return Probe([x], lambda: f(x, ins, outs), 1.0, labels=labels, rule="f32")
     if fn == "grid_resize":
         x = _leaf(x)
         new = list(size) if sp else [n + 1 - 2 * (i % 2) for i, n in enumerate(size)]  # special: no-op form (same size)
@@ -2856,7 +2966,8 @@ def build_sourced_probe(case) -> Probe:
         if method == "call":
             return Probe(leaves, lambda: (prepare(), t(x))[1], scale, stateful=True, labels=labels)
         if method == "disp":
-            return Probe(leaves, lambda: (prepare(), t.update().disp())[1], scale, stateful=True, labels=labels, abs_mag=_disp_mag(case))
+            return Probe(leaves, lambda: (prepare(), t.update().disp())[1], scale, stateful=True, labels=labels, abs_mag=_disp_mag(case),
+                         rule=_rule_affine_flow(cls in LINEAR))
         return Probe(leaves, lambda: (prepare(), t.inverse()(x))[1], scale, stateful=True, labels=labels)
     # ---- linked inverse, created ONCE: its update() must fetch the current parameters of the transformation it is linked to
     if source == "linked":
@@ -2877,7 +2988,8 @@ def build_sourced_probe(case) -> Probe:
             return (i2 if cls in SVF else i2.update()).disp()
         return inv.update().disp() if method == "disp" else inv(x)
 
-    return Probe(leaves, ev, scale, stateful=True, labels=labels, abs_mag=_disp_mag(case))
+    return Probe(leaves, ev, scale, stateful=True, labels=labels, abs_mag=_disp_mag(case),
+                 rule=_rule_affine_flow(cls in LINEAR and (fresh or method == "disp")))
 
 
 def _method_probe(t, params, method, case, grid, g, x, scale, labels, prepare=lambda: None):
@@ -2897,7 +3009,7 @@ def _method_probe(t, params, method, case, grid, g, x, scale, labels, prepare=la
     sc = isinstance(t, S.CompositeTransform) and not t.linear
     if method == "disp":
         return Probe(params, lambda: (prepare(), t.update().disp())[1], scale, stateful=True, labels=labels, staircase=sc,
-                     abs_mag=_disp_mag(case))
+                     abs_mag=_disp_mag(case), rule=_rule_affine_flow(bool(t.linear)))
     if method == "tensor":
         return Probe(params, lambda: (prepare(), t.update().tensor())[1], scale, stateful=True, labels=labels, staircase=sc,
                      abs_mag=_disp_mag(case))
@@ -2977,7 +3089,8 @@ def _generic_probe(case, grid, g, x, labels) -> Probe:
                 return inv.update().disp() if method == "disp" else inv(x)
 
             sc = method == "disp" and not t.linear  # CompositeTransform.disp(): members evaluated at float32 grid points
-            return Probe(leaves, ev, scale, stateful=True, labels=labels, staircase=sc, abs_mag=_disp_mag(case))
+            return Probe(leaves, ev, scale, stateful=True, labels=labels, staircase=sc, abs_mag=_disp_mag(case),
+                         rule=_rule_affine_flow(method == "disp" and bool(t.linear)))
     elif source == "dict":
         zs = {n: _leaf(r) for n, r in raws.items()}
         t = S.GenericSpatialTransform(grid, params=zs, config=config).double()
@@ -3004,6 +3117,181 @@ def _generic_probe(case, grid, g, x, labels) -> Probe:
 
 def run_sourced(case):
     return check_probe(case["entry"], build_sourced_probe(case), case["key"])
+
+
+# =======================================================================================
+# facet 12b: transformation objects WITH A HISTORY - the differentiable read paths after a generated sequence of public calls
+
+HISTORY_READS = ["call", "tensor", "disp", "flow", "points", "inv.tensor", "inverse_ub.disp"]
+HISTORY_ENTRIES = [f"{c}.history.{r}" for c in NONRIGID + LINEAR for r in HISTORY_READS
+                   if not (r in ("inv.tensor", "inverse_ub.disp") and c in NO_INVERSE)]
+# the operation executed LAST before the read.  All of them define the cached state by contract: the constructor, the documented
+# setters (data_, grid_, condition_, reset_parameters: each clears the buffers -> the next read recomputes them lazily),
+# clear_buffers(), and update() / a call with autograd enabled.  In-place edits of the parameters (optimiser step,
+# load_state_dict, copy_) do NOT (SpatialTransform.update docstring: update() must be called explicitly before reading): they
+# only occur in the generated PREFIX, followed by one of the above.
+HISTORY_FINAL = ["fresh", "data_", "data_", "data_.tensor", "grid_", "grid_", "reset_parameters", "condition_", "clear_buffers", "update", "call"]
+HISTORY_PREFIX = ["call", "update", "read_tensor", "read_disp", "data_", "reset_parameters", "condition_", "clear_buffers",
+                  "load_state_dict", "step", "train", "eval", "inv", "grid_"]
+
+
+@st.composite
+def history_cases(draw, entry=None, point=None):
+    entry = entry or draw(st.sampled_from(HISTORY_ENTRIES))
+    cls = entry.split(".", 1)[0]
+    case = draw(transform_cases(entry=f"{cls}.call", point=point))
+    final = draw(st.sampled_from(HISTORY_FINAL))
+    if final == "grid_" and cls in LINEAR:  # re-gridding of a linear transformation only replaces the grid attribute
+        final = "data_"
+    prefix = draw(st.lists(st.tuples(st.sampled_from(HISTORY_PREFIX), st.booleans()), min_size=0, max_size=3))
+    case.update(entry=entry, dtype="float64", final=final,
+                # grad mode in which the LAST operation is executed: the user idiom `with torch.no_grad(): t.data_(init)` and the
+                # library's own @torch.no_grad() setters; update() / call define a differentiable state only with autograd enabled
+                final_no_grad=False if final in ("update", "call", "fresh") else draw(st.sampled_from([True, True, False])),
+                prefix=[[op, bool(ng)] for op, ng in prefix], set_to_none=draw(st.booleans()))
+    return case
+
+
+def _history_members(t):
+    import deepali.spatial as S
+
+    return list(t.transforms()) if isinstance(t, S.CompositeTransform) else [t]
+
+
+def _history_values(cls, t, case, key):
+    """New parameter values of every member (the Parameter parameterisation): generic, or the initial ones at the special point."""
+    D, N = case["D"], case["N"]
+    out = []
+    for i, (m, (_, kind)) in enumerate(zip(_history_members(t), MEMBERS[cls])):
+        cur = m.params.detach()
+        if _is_special(case):
+            out.append(cur.clone())
+        elif kind == "field":
+            out.append(noise(tuple(cur.shape), key + 8 + i, -case["amp"], case["amp"], cur.dtype))
+        elif kind == "hom":
+            out.append(torch.eye(D, D + 1, dtype=cur.dtype).unsqueeze(0).repeat(N, 1, 1) + noise((N, D, D + 1), key + 7, -0.2, 0.2, cur.dtype))
+        else:
+            out.append(_elementary(kind, N, D, key + 31 * i, cur.dtype).detach().clone())
+    return out
+
+
+def _history_other_grid(cls, t):
+    """Another sampling grid the transformation can be moved to by its documented grid_(): a grid of another size of the same domain
+    (dense fields: resampled), the once subdivided grid (cubic B-splines: 2 n - 1 samples, control point subdivision)."""
+    g = t.grid()
+    if cls in BSPLINE:
+        return g.resize([2 * n - 1 for n in g.size()])
+    return g.resize([n + 1 + (i % 2) for i, n in enumerate(g.size())])
+
+
+def _history_apply(cls, t, op, case, key, x, as_parameter=True):
+    if op == "call":
+        t(x)
+    elif op == "update":
+        t.update()
+    elif op == "read_tensor":
+        t.update().tensor()
+    elif op == "read_disp":
+        t.update().disp()
+    elif op in ("data_", "data_.tensor"):
+        for m, v in zip(_history_members(t), _history_values(cls, t, case, key)):
+            m.data_(torch.nn.Parameter(v) if op == "data_" else v)
+    elif op == "reset_parameters":
+        for m in _history_members(t):
+            m.reset_parameters()
+    elif op == "condition_":  # (stored, not used by parameters held as tensors; clears the buffers)
+        t.condition_(noise((case["N"], 2), key + 59, -1.0, 1.0))
+    elif op == "clear_buffers":
+        t.clear_buffers()
+    elif op == "load_state_dict":
+        sd = {k: v.detach().clone() for k, v in t.state_dict().items()}
+        if not _is_special(case):
+            for i, k in enumerate(sorted(sd)):
+                sd[k] = sd[k] + 0.02 * noise(tuple(sd[k].shape), key + 3 + i, -1.0, 1.0, sd[k].dtype)
+        t.load_state_dict(sd)
+    elif op == "step":
+        params = [q for q in t.parameters() if q.requires_grad]
+        opt = torch.optim.SGD(params, lr=1e-3)
+        with torch.enable_grad():
+            t(x).square().sum().backward()
+        opt.step()
+        opt.zero_grad(set_to_none=bool(case.get("set_to_none", True)))
+    elif op == "train":
+        t.train()
+    elif op == "eval":
+        t.eval()
+    elif op == "inv":
+        if cls not in NO_INVERSE:
+            t.inv
+    elif op == "grid_":
+        if cls in NONRIGID:
+            t.grid_(_history_other_grid(cls, t))
+    elif op != "fresh":
+        raise KeyError(op)
+
+
+def build_history_probe(case) -> Probe:
+    cls, _, read = case["entry"].split(".", 2)
+    g = case["grid"]
+    grid = make_grid(g)
+    key = case["key"]
+    t = build_transform(cls, grid, case)
+    x = _points_for(case, grid, g)
+    regridded = 0
+    for i, (op, ng) in enumerate(case["prefix"]):
+        if op == "grid_":
+            if regridded or case["final"] == "grid_" or cls not in NONRIGID:
+                continue
+            regridded += 1
+        with (torch.no_grad() if ng else torch.enable_grad()):
+            _history_apply(cls, t, op, case, key + 1009 * (i + 1), x)
+    final, fng = case["final"], bool(case["final_no_grad"])
+    with (torch.no_grad() if fng else torch.enable_grad()):
+        _history_apply(cls, t, final, case, key + 77, x)
+    leaves = [q for q in t.parameters() if q.requires_grad]
+    tag = f"[after_{final}{',no_grad' if fng else ''}]"
+    if not leaves:
+        raise Violation(f"parameters_not_optimisable:{case['entry']}{tag}",
+                        "a transformation constructed with optimisable Parameters has none after a sequence of public setters")
+
+    def do_read():
+        if read == "call":
+            return t(x)
+        if read == "tensor":
+            return t.tensor()
+        if read == "disp":
+            return t.disp()
+        if read == "flow":
+            return t.flow()
+        if read == "points":
+            return t.points(x)
+        if read == "inv.tensor":
+            return t.inv.tensor()
+        return t.inverse(update_buffers=True).disp()
+
+    state = {"first": True}
+
+    def ev():
+        if torch.is_grad_enabled() and state["first"]:
+            state["first"] = False  # the state the history left behind: read WITHOUT an intervening update() / call
+        elif read != "call":  # (a call refreshes the buffers itself: pre-forward hook, in training and in evaluation mode)
+            t.update()  # the documented explicit refresh after the leaves were edited in place (finite differences, later iterations)
+        return do_read()
+
+    zero = _is_special(case) or final == "reset_parameters"
+    labels = [f"D={case['D']}", f"N={case['N']}", f"T={cls}", f"read={read}", f"final={final}", f"final_no_grad={fng}",
+              f"prefix={len(case['prefix'])}", f"point={'special' if zero else 'generic'}"]
+    labels += [f"prefix_op={op}{'/no_grad' if ng else ''}" for op, ng in case["prefix"]]
+    if cls in SVF:
+        labels += [f"steps={case['steps']}", f"vscale={case['vscale']}"]
+    scale = 0.3 if cls in LINEAR else case["amp"]
+    return Probe(leaves, ev, scale, stateful=True, labels=labels, tag=tag,
+                 abs_mag=1.0 if zero and read not in ("call", "points") else 0.0,
+                 rule=_rule_affine_flow(cls in LINEAR and read in ("disp", "flow", "inverse_ub.disp")))
+
+
+def run_history(case):
+    return check_probe(case["entry"], build_history_probe(case), case["key"])
 
 
 # =======================================================================================
@@ -3477,9 +3765,45 @@ def _floor_cases(strategy_fn, entries, per_entry):
             + [c for c in _floor_cases_at(strategy_fn, entries, per_entry, "special") if c.get("point") == "special"])
 
 
+# entries that take the derivative `mode` option (spatial_derivatives and everything built on it): the table has an OPTION dimension
+MODE_ENTRIES = {
+    "flow_ops": ["compose_svfs.u", "compose_svfs.v", "compose_svfs.both", "lie_bracket", "spatial_derivatives", "flow_derivatives",
+                 "jacobian_det", "jacobian_matrix", "curl", "divergence", "divergence_free_flow"],
+    "regularisers": ["bending_loss", "curvature_loss", "diffusion_loss", "divergence_loss", "elasticity_loss", "grad_loss"],
+    "loss_modules": ["Bending", "Curvature", "Diffusion", "Divergence", "Elasticity", "GradLoss"],
+    "modules": ["Curl"],
+}
+MODE_SIGMAS = [None, 0.7, 1.0]
+
+
+def _mode_floor(name, strategy_fn, rounds):
+    """Option floor: every entry of MODE_ENTRIES[name] x every documented derivative mode (FD_MODES, incl. 'gaussian' / 'bspline' /
+    'sobel' / 'prewitt') at generic float64 values, `rounds` times, with sigma cycling through None / 0.7 / 1.0 (the standard
+    deviation of the derivative-of-Gaussian kernels of mode='gaussian', Gaussian pre-smoothing for the other modes);
+    seed-independent.  grad_loss gets the smooth exponents p = 2, q = 1 there (so that the smoothing modes are kept)."""
+    entries = MODE_ENTRIES.get(name, [])
+    if not entries:
+        return []
+    n = len(FD_MODES) * rounds
+    by_entry = {}
+    for c in _floor_cases_at(strategy_fn, entries, n, "generic"):
+        by_entry.setdefault(c["entry"], []).append(c)
+    out = []
+    for e in entries:
+        for i, c in enumerate(by_entry.get(e, [])[:n]):
+            c = dict(c, mode=FD_MODES[i % len(FD_MODES)], point="generic")
+            if "sigma" in c:
+                c["sigma"] = MODE_SIGMAS[(i // len(FD_MODES) + i) % len(MODE_SIGMAS)]
+            if "p" in c and (c.get("fentry") or c["entry"]) == "grad_loss":
+                c.update(p=2 + 2 * (i % 2), q=1 + (i // 2) % 2)
+            out.append(c)
+    return out
+
+
 def _facet(name, run, strategy_fn, entries, what, quick, thorough, floor_quick=3, floor_thorough=12, quick_shards=2):
     return Facet(name, run, strategy=lambda: _entry_of(strategy_fn, entries),
-                 enumerate=lambda tier: _floor_cases(strategy_fn, entries, floor_quick if tier == "quick" else floor_thorough),
+                 enumerate=lambda tier: (_floor_cases(strategy_fn, entries, floor_quick if tier == "quick" else floor_thorough)
+                                         + _mode_floor(name, strategy_fn, 1 if tier == "quick" else 3)),
                  rule=f"{what}; {len(entries)} table entries, each probed at least {floor_quick} (quick) / {floor_thorough} (thorough) "
                       "times at generic values and as often at its special point (zero / identity / initial input, where it has one) "
                       "by a seed-independent floor, plus the generated cases (1 in 4 at the special point); non-trivial = some reliable direction with "
@@ -3491,7 +3815,8 @@ ALL_ENTRIES = {"transforms": TRANSFORM_ENTRIES, "image_transformer": IT_ENTRIES,
                "bspline": BSPLINE_ENTRIES, "rotations_and_grid_maps": ROT_ENTRIES, "similarity_losses": SIM_ENTRIES,
                "regularisers": REG_ENTRIES, "loss_modules": LOSS_MODULE_ENTRIES,
                "pointset_distances": POINTSET_ENTRIES, "core_functional": CORE_ENTRIES, "modules": MODULE_ENTRIES,
-               "parameter_sources_and_composites": SOURCED_ENTRIES, "kinks_and_singular_points": KINK_ENTRIES}
+               "parameter_sources_and_composites": SOURCED_ENTRIES, "transform_histories": HISTORY_ENTRIES,
+               "kinks_and_singular_points": KINK_ENTRIES}
 
 FACETS = [
     _facet("transforms", run_transforms, transform_cases, TRANSFORM_ENTRIES,
@@ -3539,6 +3864,14 @@ FACETS = [
            "(inverse(link=True) / .inv); SequentialTransform / MultiLevelTransform with non-rigid and nested members (call, grid "
            "call, disp, tensor, inverse, points, ImageTransformer); GenericSpatialTransform (8 models x 8 affine models; Parameters, "
            "dict of tensors, callable returning a dict, linked inverse)", quick=250, thorough=6000, floor_quick=4, quick_shards=4),
+    _facet("transform_histories", run_history, history_cases, HISTORY_ENTRIES,
+           "transformation objects with a HISTORY: every transform class x read path (call, tensor(), disp(), flow(), points(), "
+           ".inv.tensor(), inverse(update_buffers=True).disp()) evaluated - without an intervening update() / call - directly after a "
+           "generated sequence of public operations: a prefix of 0..3 of {call, update, tensor / disp read, data_, reset_parameters, "
+           "condition_, clear_buffers, load_state_dict, optimiser step, train, eval, .inv, grid_}, each under torch.no_grad() or "
+           "with autograd enabled, and a LAST operation that defines the cached state by contract (constructor, data_ with a "
+           "Parameter / plain tensor, grid_ = resampling / B-spline subdivision, reset_parameters, condition_, clear_buffers under "
+           "no_grad or grad; update / call with autograd enabled)", quick=260, thorough=5000, floor_quick=2, quick_shards=4),
     Facet("kinks_and_singular_points", run_kink, strategy=lambda: _entry_of(kink_cases, KINK_ENTRIES),
           enumerate=lambda tier: _floor_cases_at(kink_cases, KINK_ENTRIES, 6 if tier == "quick" else 24, "kink"),
           rule=f"{len(KINK_ENTRIES)} entries evaluated AT a kink / singular point (identical images under mae / l1, zero parameters "
